@@ -135,6 +135,38 @@ fn iter_builders(r: &mut Rng, m: &Model, o: &mut CaseOut) {
         observe(&AdjacencyMatrix::from(arcs.clone()), &want, o, "AdjacencyMatrix::from(arcs)", true);
         observe(&EdgeList::from(arcs.clone()), &want, o, "EdgeList::from(arcs)", true);
     }
+    // The same inputs through iterators whose size_hint says little or nothing
+    // (filter: lower bound 0; from_fn: (0, None); chain of both; rev).
+    {
+        let mut it = rows.clone().into_iter();
+        observe(&AdjacencyList::from(std::iter::from_fn(move || it.next())), m, o, "AdjacencyList::from(rows via from_fn)", false);
+        observe(&AdjacencyMap::from(rows.clone().into_iter().filter(|_| true)), m, o, "AdjacencyMap::from(rows via filter)", false);
+        let mut it = rows.clone().into_iter();
+        observe(&AdjacencyMap::from(std::iter::from_fn(move || it.next())), m, o, "AdjacencyMap::from(rows via from_fn)", false);
+        let k = n / 2;
+        let (front, back) = (rows[..k].to_vec(), rows[k..].to_vec());
+        observe(&AdjacencyList::from(front.clone().into_iter().chain(back.clone().into_iter().filter(|_| true))), m, o, "AdjacencyList::from(rows via chain+filter)", false);
+        observe(&AdjacencyMap::from(front.into_iter().filter(|_| true).chain(back)), m, o, "AdjacencyMap::from(rows via filter+chain)", false);
+        let wrows: Vec<BTreeMap<usize, usize>> = (0..n).map(|u| m.out(u).into_iter().map(|v| (v, u + v)).collect()).collect();
+        let mut mw2 = m.clone();
+        for (&(u, v), w) in mw2.arcs.iter_mut() {
+            *w = (u + v) as i64;
+        }
+        let mut it = wrows.into_iter();
+        let wd = AdjacencyListWeighted::<usize>::from(std::iter::from_fn(move || it.next()));
+        observe(&wd, &mw2, o, "AdjacencyListWeighted::from(rows via from_fn)", false);
+        observe_w(&wd, &mw2, o, "AdjacencyListWeighted::from(rows via from_fn)", |w| *w as i64);
+        let arcs = arcs_in_some_order(m);
+        if !arcs.is_empty() {
+            let top = arcs.iter().map(|&(u, v)| u.max(v)).max().unwrap() + 1;
+            let mut want = m.clone();
+            want.verts = (0..top).collect();
+            let mut it = arcs.clone().into_iter();
+            observe(&AdjacencyMatrix::from(std::iter::from_fn(move || it.next())), &want, o, "AdjacencyMatrix::from(arcs via from_fn)", false);
+            observe(&EdgeList::from(arcs.clone().into_iter().filter(|_| true)), &want, o, "EdgeList::from(arcs via filter)", false);
+            observe(&EdgeList::from(arcs.into_iter().rev()), &want, o, "EdgeList::from(arcs reversed)", false);
+        }
+    }
     // invalid inputs must panic
     if n >= 1 {
         let u = r.below(n);
